@@ -47,7 +47,7 @@ def run(ctx):
     if not hc.ensure_builds(ctx): hc.finish(ctx, 'builds failed')
     n = 500 if ctx.quick() else 10000
     # the name-level semantics also predicts the mode of every encapsulation (h=) through decapsulation outcomes of classic-only holders
-    H, impl, model, dis, hits = hc.run_profile(ctx, profiles.C11, n, trigger=trigger, extra_oracle=flavour_oracle, claims=lambda op, a, b: op in ('EN', 'DE'))
+    H, impl, model, dis, hits = hc.run_profile(ctx, profiles.with_scenarios(profiles.C11), n, trigger=trigger, extra_oracle=flavour_oracle, claims=lambda op, a, b: op in ('EN', 'DE'))
     hc.vm_crosscheck(ctx, H, model)
     hc.finish(ctx, f'{n} random histories over structures with arbitrary hint assignments, single/multi-target and mixed policies, through rekey/refresh/round trips; every dump is checked: a right is hybridized iff one of its '
               'attributes was declared hybridized, in master, public and user keys; the encapsulation mode (h=) is compared with the model; non-trivial = both hints present, a rekey and an encapsulation')
